@@ -142,6 +142,8 @@ def _child_event(name, args, res):
             n = "prctl_other"
     elif name in ("setgid", "setuid"):
         v = _num(args.rstrip(")"))
+    elif name in ("sethostname", "setdomainname"):
+        v = _num(args.rsplit(",", 1)[-1].strip().rstrip(")"))      # the length argument
     elif name in ("read", "write"):
         v = _num(res) if ok else 0
     elif name in ("execve", "execveat"):
@@ -269,6 +271,8 @@ def opt_on(o):
         extra.append("grp=" + o["grp"])
     if o.get("user") and o.get("gmap", "allow") != "allow":
         extra.append("gmap=" + o["gmap"])
+    if o.get("uts") and (o.get("hn", "short"), o.get("dn", "long")) != ("short", "long"):
+        extra.append("hn=%s,dn=%s" % (o.get("hn"), o.get("dn")))
     return [k for k in SITE_KEYS + ROW_KEYS if o.get(k) is True] + extra
 
 
